@@ -162,6 +162,65 @@ Theorem use_raw_data_decision : forall h,
 Proof. exact use_raw_data_spec. Qed.
 Print Assumptions use_raw_data_decision.
 
+(* ---------- the storage contract the PromQL engine relies on, for the adapter model (proofs/PromStoreProofs.v) ---------- *)
+From Coq Require Import Sorting.Permutation.
+From Qryn Require Import proofs.PromStoreProofs.
+
+(* SeriesSet: the engine's loop `for ss.Next() { ss.At() }` visits every returned series exactly once, in order, At()
+   never indexes out of range inside the loop; once Next() has returned false it keeps returning false *)
+Theorem series_set_visits_each_series_once : forall l fuel, (List.length l < fuel)%nat ->
+  sset_drain fuel (sset_new l) = map Some l.
+Proof. exact sset_drain_all. Qed.
+Print Assumptions series_set_visits_each_series_once.
+
+Theorem series_set_exhaustion_is_stable : forall s, -1 <= ss_idx s -> snd (sset_next s) = false ->
+  snd (sset_next (fst (sset_next s))) = false /\ sset_at (fst (sset_next s)) = None.
+Proof. exact sset_exhausted_stays. Qed.
+Print Assumptions series_set_exhaustion_is_stable.
+
+(* SeriesSet ordering: whatever the rows and the labels answered, Select returns its series sorted by Prometheus'
+   labels.Compare (series_le a b := labels_compare (o_labels a) (o_labels b) <> Gt); the comparator of Select's final
+   sort.Slice is exactly "labels.Compare <= 0" *)
+Theorem series_set_sorted_by_labels_compare : forall mr rows fetch,
+  StronglySorted series_le (select_series mr rows fetch) /\
+  (forall a b, labels_less a b = true <-> labels_compare a b <> Datatypes.Gt).
+Proof. intros. split; [apply select_series_sorted|intros; apply labels_less_compare]. Qed.
+Print Assumptions series_set_sorted_by_labels_compare.
+
+(* Labels(): sorted by name, a permutation of the pairs answered for the fingerprint; strictly ascending (hence the
+   unique such list) when the names are distinct *)
+Theorem series_labels_sorted : forall fetch fp,
+  StronglySorted name_le (labels_get fetch fp) /\
+  (forall l, fingerprints_has fetch fp = Some l -> Permutation (labels_get fetch fp) l) /\
+  (NoDup (map fst (labels_get fetch fp)) ->
+   StronglySorted (fun a b => str_ltb (fst a) (fst b) = true) (labels_get fetch fp)).
+Proof.
+  intros. destruct (labels_get_sorted fetch fp) as [H1 H2]. split; [exact H1|]. split; [exact H2|]. now apply sorted_strict.
+Qed.
+Print Assumptions series_labels_sorted.
+
+(* the sample cursor after the end: once a call has returned false (the cursor is exhausted), every later Next() and
+   Seek(t) returns false and At() has no value -- "Seek after exhaustion" *)
+Theorem cursor_exhaustion_is_stable : forall ops c, len c <= idx c ->
+  Forall (fun ob => ob = Obs false None) (run c ops).
+Proof. exact cursor_exhausted_stays. Qed.
+Print Assumptions cursor_exhaustion_is_stable.
+
+(* At() has a value exactly after a call that returned true; a call that returns false leaves the cursor exhausted
+   ("At after a failed Next" would index out of range in Go: the contract forbids the call, the model shows None) *)
+Theorem cursor_at_defined_iff_call_succeeded : forall c o, -1 <= idx c ->
+  let '(c', ob) := step c o in
+  match ob with Obs b v => (b = true <-> v <> None) /\ (b = false -> len c' <= idx c') /\ -1 <= idx c' end.
+Proof. exact cursor_at_defined. Qed.
+Print Assumptions cursor_at_defined_iff_call_succeeded.
+
+(* the hypothesis of seek_contract is what prom_select_exact / prom_select_exact_series deliver for every series
+   (StronglySorted Z.le on the timestamps): the cursor over a selected series honours the contract *)
+Theorem seek_contract_on_selected_series : forall s ops, StronglySorted Z.le s ->
+  spec_run_ok s (-1) ops (run (iterator s) ops) = true.
+Proof. exact seek_contract_for_sorted. Qed.
+Print Assumptions seek_contract_on_selected_series.
+
 (* ---------- profile (Pyroscope) selectors ----------
    prof_fp_sel is the list-function reading of the statement StreamSelectorPlanner emits (proved equal to the
    reference interpreter on the planner's own tree: prof_statement_sql_meaning); pgin_of derives
